@@ -60,6 +60,62 @@ def retag(text, how):
     return text
 
 
+def want_crlf_of(style, term):
+    return style == "Windows" or (style == "Auto" and term == "crlf")
+
+
+def files_on_disk(v):
+    """The terminators of the FILE after `rustfmt f.rs` (and what --check answers) for every
+    newline_style x input terminators x already formatted / not: the text the files emitter
+    compares against is not the text the formatter saw (rustc normalises CR LF on reading)."""
+    core.build(harness=False)
+    rustfmt = core.bin_path("rustfmt")
+    n = 0
+    with Scratch("c08f") as sc:
+        for style in ("Auto", "Unix", "Windows"):
+            for term in ("lf", "crlf"):
+                for formatted in (True, False):
+                    for child in (False, True):
+                        d = sc / f"{style}-{term}-{formatted}-{child}"
+                        d.mkdir()
+                        body = "fn f() {\n    let x = 1;\n}\n" if formatted else "fn  f( ) {\nlet x=1;\n}\n"
+                        text = body.replace("\n", "\r\n") if term == "crlf" else body
+                        target = d / ("m.rs" if child else "lib.rs")
+                        target.write_bytes(text.encode())
+                        if child:
+                            (d / "lib.rs").write_bytes(b"mod m;\r\n" if want_crlf_of(style, term)
+                                                       else b"mod m;\n")
+                        want_crlf = style == "Windows" or (style == "Auto" and term == "crlf")
+                        env = core.run_env({"HOME": str(d)})
+                        c = subprocess.run([rustfmt, "--check", "--config", f"newline_style={style}",
+                                            str(d / "lib.rs")], cwd=d, env=env, capture_output=True,
+                                           timeout=60)
+                        r = subprocess.run([rustfmt, "--config", f"newline_style={style}",
+                                            str(d / "lib.rs")], cwd=d, env=env, capture_output=True,
+                                           timeout=60)
+                        n += 2
+                        got = target.read_bytes()
+                        lf, crlf = got.count(b"\n"), got.count(b"\r\n")
+                        follows = (crlf == lf) if want_crlf else (crlf == 0)
+                        would_change = (not formatted) or (want_crlf != (term == "crlf"))
+                        bad = []
+                        if not follows:
+                            bad.append(f"file has {crlf} CR LF of {lf} terminators")
+                        if (c.returncode == 1) != would_change:
+                            bad.append(f"--check exits {c.returncode}, the file "
+                                       f"{'needs' if would_change else 'does not need'} rewriting")
+                        if bad:
+                            tagk = "auto-crlf" if (style == "Auto" and term == "crlf") else "file"
+                            v.violation(f"{tagk}:TerminatorsFollowStyle:file:{style}:{term}:"
+                                        f"formatted={formatted}:child={child}",
+                                        f"newline_style={style}, {term} input, "
+                                        f"{'formatted' if formatted else 'unformatted'}"
+                                        f"{' child module' if child else ''}: {bad}",
+                                        {"style": style, "term": term, "formatted": formatted,
+                                         "child": child, "exit": r.returncode})
+    return n
+
+
 def run(tier, seed, replay=None):
     v = Verdict("C08", tier, seed)
     rng = random.Random(seed)
@@ -151,13 +207,14 @@ def run(tier, seed, replay=None):
                         f"{inv} fails on the text emitted for {m['name']} ({m['how']} input) "
                         f"with {j['opts']}", {"source": j["src"][:4000], "opts": j["opts"],
                                               "meta": m})
+    n_files = files_on_disk(v)
     v.sample({"newline": nrecs[100] if len(nrecs) > 100 else nrecs[-1]})
     if wmeta:
         v.sample({"file": wmeta[0]["_meta"], "opts": wmeta[0]["opts"],
                   "first_lines": wrecs[0]["lines"][:3]})
     cov = {"states": states, "transitions": trans,
            "traces_validated_against_impl": len(nrecs) + len(wrecs) - len(fails),
-           "evaluations": len(nrecs) + len(jobs),
+           "evaluations": len(nrecs) + len(jobs) + n_files, "file_level_runs": n_files,
            "distinct_nontrivial": len({(j["_meta"]["name"], j["_meta"]["how"],
                                         json.dumps(j["opts"], sort_keys=True)) for j in wmeta}),
            "rule": "(a) every text over {c,CR,LF} up to length 6 through the real "
